@@ -89,6 +89,7 @@ def miri(prop, tier, seed, ctx, log):
         procs.append((i, subprocess.Popen(cmd, cwd=ctx["harness"], env=env, stdout=subprocess.PIPE,
                                           stderr=subprocess.PIPE, text=True)))
     evals = 0
+    unsupported = []
     for i, p in procs:
         try:
             so, se = p.communicate(timeout=ctx.get("miri_timeout", 900))
@@ -107,8 +108,11 @@ def miri(prop, tier, seed, ctx, log):
             except Exception:
                 pass
         if "error: unsupported operation" in se:
+            # this tree does something the interpreter cannot execute (a foreign function, a backtrace): Miri has
+            # nothing to say about it. That is neither a violation nor a reason to distrust the other engines of
+            # the check (native, ASan and valgrind builds run the same workload); it is recorded in the evidence.
             k = se.find("error: unsupported operation")
-            out["inconclusive"].append("miri shard %d: %s" % (i, se[k:k + 200].replace("\n", " ")))
+            unsupported.append("shard %d: %s" % (i, se[k:k + 200].replace("\n", " ")))
         elif "Undefined Behavior" in se or "data race" in se.lower():
             k = se.find("error:")
             out["aborts"].append({"shard": i, "nshards": nshards, "rc": p.returncode, "case": None,
@@ -116,8 +120,8 @@ def miri(prop, tier, seed, ctx, log):
         else:
             out["inconclusive"].append("miri shard %d ended with rc %s: %s" % (i, p.returncode, se[-300:]))
     out["coverage"] = {"miri_shards": nshards, "miri_evaluations": evals, "wall_s": round(time.time() - t0, 1),
-                       "flags": env["MIRIFLAGS"]}
-    log("miri: %d evaluations in %.1fs" % (evals, time.time() - t0))
+                       "flags": env["MIRIFLAGS"], "shards_stopped_by_an_unsupported_operation": unsupported}
+    log("miri: %d evaluations in %.1fs%s" % (evals, time.time() - t0, " (%d shards stopped: unsupported operation)" % len(unsupported) if unsupported else ""))
     return out
 
 
